@@ -446,6 +446,16 @@ func (rn *run11) unbind(s *stream) {
 	if !s.bound {
 		return
 	}
+	if rn.kind == zoo.JitterBuffer && !s.local && s.r != nil && !rn.closed && rn.onlyRemoteBound(s) {
+		// playback has started on this binding (more than the start count of in-order packets)
+		// before the stream goes away: the state a later binding must not inherit
+		for k := 0; k < 60; k++ {
+			h := rn.header(s)
+			b, _ := (&rtp.Packet{Header: h, Payload: []byte{1, 2, 3}}).Marshal()
+			s.feed.Push(obs.FeedItem{Data: b})
+			_, _, _ = s.r.Read(make([]byte, 1500), interceptor.Attributes{})
+		}
+	}
 	ok := false
 	if s.local {
 		ok = rn.call("UnbindLocalStream", func() { rn.b.I.UnbindLocalStream(s.info) })
@@ -890,6 +900,17 @@ func (rn *run11) checkAfterUnbind(s *stream, until int64) {
 	}
 }
 
+// onlyRemoteBound: s is the only remote stream currently bound (the jitter buffer interceptor has
+// ONE buffer for all its streams).
+func (rn *run11) onlyRemoteBound(s *stream) bool {
+	for _, o := range rn.remotes {
+		if o != s && o.bound {
+			return false
+		}
+	}
+	return true
+}
+
 // checkFreshAfterRebind: binding the same SSRC again starts from fresh state.
 func (rn *run11) checkFreshAfterRebind(s *stream) {
 	rn.c.Add("rebinds_checked", 1)
@@ -995,6 +1016,28 @@ func (rn *run11) checkFreshAfterRebind(s *stream) {
 					rn.seq, s.opts.SSRC, len(s.written), i, g.Header.SSRC, g.Header.SequenceNumber, g.Header.Timestamp, g.Payload, w.Header.SSRC, w.Header.SequenceNumber, w.Header.Timestamp, w.Payload)
 				return
 			}
+		}
+	case rn.kind == zoo.JitterBuffer && !s.local && !s.boundAfterClose && rn.onlyRemoteBound(s):
+		// a re-bound stream is played out like a new one: after more than the start count of
+		// in-order packets, reads hand out packets of the NEW run (a buffer that kept the old
+		// playout head waits for the old numbers for ever)
+		got, first := 0, s.seq+1
+		for k := 0; k < 70; k++ {
+			h := rn.header(s)
+			b, _ := (&rtp.Packet{Header: h, Payload: []byte{1, 2, 3}}).Marshal()
+			s.feed.Push(obs.FeedItem{Data: b})
+			buf := make([]byte, 1500)
+			n, _, err := s.r.Read(buf, interceptor.Attributes{})
+			if err == nil && n >= 12 {
+				if seq := uint16(buf[2])<<8 | uint16(buf[3]); seq-first < 70 {
+					got++
+				}
+			}
+		}
+		rn.c.Add("rebound_jitterbuffer_streams_played_out", 1)
+		if got == 0 {
+			rn.c.Violation("stale-state-after-rebind/jitterbuffer/never-plays-the-new-run",
+				"sequence %v: SSRC %d unbound and bound again, 70 in-order packets %d.. read: not one read returned a packet of the new run", rn.seq, s.opts.SSRC, first)
 		}
 	case rn.kind == zoo.Stats && s.local && rn.b.StatsGetter != nil && !rn.b.CustomRecorder:
 		synctest.Wait()
